@@ -284,6 +284,53 @@ Theorem svcb_canonical_case_refuted :
   lex_cmp (svcb_enc 1 [[65]] []) (svcb_enc 1 [[97]] []) = Lt.
 Proof. vm_compute. auto. Qed.
 
+(* ---- IPSECKEY with a name gateway: same pattern, generic in the fixed prefix *)
+
+Definition name_cmp_used (composed : bool) (pre1 pre2 : bytes) (t1 t2 : name) : Prop :=
+  composed = false /\ pre1 = pre2 /\ t1 <> t2.
+
+Theorem prefixed_name_cmp_bytewise composed pre1 t1 tail1 pre2 t2 tail2 :
+  length pre1 = length pre2 -> valid_abs t1 -> valid_abs t2 ->
+  ~ name_cmp_used composed pre1 pre2 t1 t2 ->
+  prefixed_name_cmp_gen composed pre1 t1 tail1 pre2 t2 tail2 =
+  Ok (lex_cmp (pre1 ++ wire_abs t1 ++ tail1) (pre2 ++ wire_abs t2 ++ tail2)).
+Proof.
+  intros Hl V1 V2 K. rewrite lex_cmp_app by exact Hl. unfold prefixed_name_cmp_gen.
+  destruct (lex_cmp pre1 pre2) eqn:Ep; try reflexivity. apply lex_cmp_eq in Ep. subst pre2.
+  destruct (labels_composed_wire t1 (valid_nonempty _ (proj1 V1)) t2 (valid_nonempty _ (proj1 V2))) as [c [Hc Hw]].
+  assert (S : (if composed then field_cmp (FNameRaw t1) (FNameRaw t2) else Ok (name_cmp t1 t2)) = Ok c).
+  { destruct composed; [exact Hc|].
+    destruct (list_eq_dec (list_eq_dec N.eq_dec) t1 t2) as [->|D].
+    - rewrite name_cmp_refl. f_equal.
+      specialize (Hw [] []). rewrite lex_cmp_refl in Hw. cbn [lex_cmp] in Hw.
+      destruct c; [reflexivity|discriminate|discriminate].
+    - exfalso. apply K. repeat split; auto. }
+  rewrite S. cbn [bind]. rewrite Hw. destruct c; reflexivity.
+Qed.
+
+Definition ipseckey_enc (prec alg : N) (gw : name) (key : bytes) : bytes :=
+  [prec; 3; alg] ++ wire_abs gw ++ key.
+
+Theorem ipseckey_canonical_bytewise composed p1 a1 g1 k1 p2 a2 g2 k2 : valid_abs g1 -> valid_abs g2 ->
+  ~ name_cmp_used composed [p1; 3; a1] [p2; 3; a2] g1 g2 ->
+  prefixed_name_cmp_gen composed [p1; 3; a1] g1 k1 [p2; 3; a2] g2 k2 =
+  Ok (lex_cmp (ipseckey_enc p1 a1 g1 k1) (ipseckey_enc p2 a2 g2 k2)).
+Proof. intros. apply prefixed_name_cmp_bytewise; auto. Qed.
+
+Theorem ipseckey_canonical_refuted : exists g1 g2, valid_abs g1 /\ valid_abs g2 /\
+  prefixed_name_cmp_gen false [10; 3; 2] g1 [1] [10; 3; 2] g2 [1] = Ok Gt /\
+  lex_cmp (ipseckey_enc 10 2 g1 [1]) (ipseckey_enc 10 2 g2 [1]) = Lt.
+Proof.
+  exists [[98]], [[97;97]]. split; [split; [repeat constructor; simpl; lia|simpl; lia]|].
+  split; [split; [repeat constructor; simpl; lia|simpl; lia]|]. vm_compute. auto.
+Qed.
+
+(* hashing a gateway never panics once the todo!() is gone *)
+Theorem ipseckey_gateway_hash_total gw : no_panic (ipseckey_gateway_hash_gen false gw).
+Proof. destruct gw; exact I. Qed.
+Theorem ipseckey_gateway_hash_refuted : ipseckey_gateway_hash_gen true None = Panic P_TODO.
+Proof. reflexivity. Qed.
+
 (* ---- unknown record data *)
 
 Lemma bytes_eqb_eq a b : bytes_eqb a b = true <-> a = b.
